@@ -65,7 +65,7 @@ TIMES = {"zero": 0, "now": NOW, "big": (1 << 32) + 5}
 ALGS = list(ref.ALGORITHMS)          # the 9 HMAC algorithm names dns.tsig.HMACTSig supports
 KINDS = ["query", "response-opt", "update", "root"]
 KEYNAMES = ["k.", "Key.Example."]
-SECRETS = [32, 1, 200]
+SECRETS = [32, 1, 200, 0]      # 0: the empty secret (a legal HMAC key, and a falsy value in Python)
 FUDGES = [300, 0, 65535]
 TIMEKEYS = ["now", "zero", "big"]
 ERRS = [0, 18, 3862]      # none, BADTIME (with 6 octets of other data), a 12-bit extended code
@@ -465,8 +465,8 @@ def run_tamper(case, col=None):
 
     # --- keys, names, algorithms
     if sub_only in (None, "key"):
-        flipped = bytes([secret[0] ^ 1]) + secret[1:]
-        other_secret = secret_of(len(secret), salt=1)
+        flipped = (bytes([secret[0] ^ 1]) + secret[1:]) if secret else b"\x01"
+        other_secret = secret_of(len(secret) or 16, salt=1)
         name = key.name
         other_name = dns.name.from_text("other." + case["keyname"] if case["keyname"] != "." else "other.")
         variants = [
